@@ -94,11 +94,12 @@ def match(reference, found, site_conds, reads, allowed):
                 if f[2][0] == "atleast":
                     ok = any(s[2][0] in ("atleast", "const") and s[2][1] >= f[2][1] for s in st)
                 else:
-                    ok = f in st
+                    ok = any(norm_stride(s[2]) == norm_stride(f[2]) for s in st)
                 if not ok:
                     missing.append((rf, "the loop advances by %s" % ([s[2] for s in st],)))
                 for s in st:
-                    if s != f and f[2][0] != "atleast" and s[2] not in allowed:
+                    if norm_stride(s[2]) != norm_stride(f[2]) and f[2][0] != "atleast" \
+                            and norm_stride(s[2]) not in [norm_stride(a) for a in allowed]:
                         missing.append((rf, "a path advances the loop by %r" % (s[2],)))
             elif f[0] == "window":
                 if f not in found:
@@ -126,6 +127,56 @@ def loops_in(f):
     return out
 
 
+def norm_stride(v):
+    """one normal form for a stride, whether the body advances in several steps or adds one sum: the constants collected,
+    every field read (and every other symbolic term) a term of its own"""
+    if not isinstance(v, tuple) or not v or v[0] != "expr":
+        return v
+    total = v[1]
+    terms = []
+
+    def add(p):
+        nonlocal total
+        if isinstance(p, tuple) and p and p[0] == "expr":
+            total += p[1]
+            for t in p[2]:
+                terms.append(("field", t))
+            for t in (p[3] if len(p) > 3 else ()):
+                terms.append(("other", t))
+        elif isinstance(p, tuple) and p and p[0] == "const":
+            total += p[1]
+        else:
+            terms.append(("part", p))
+    for p in v[2]:
+        add(p)
+    if not terms:
+        return ("const", total)
+    return ("expr", total, tuple(sorted(terms, key=repr)))
+
+
+def extraction_gaps(dps):
+    """signs that the structural facts of a decoder are incomplete: a summarised loop over something other than the elements of
+    a view for which no walked view / cursor and stride was identified, or a position without a normal form"""
+    out = []
+    for dp in dps:
+        for l in dp.loops:
+            if l["exit"] in ("raise", "return", "break"):
+                continue
+            it = l["raw"].get("iterable")
+            if not l["vars"] and not isinstance(it, View) and not (isinstance(it, list)):
+                if l["test"] is not None or getattr(it, "range_args", None) is not None:
+                    out.append("the loop at %s has no walked buffer and stride the analysis recognises" % l["where"])
+        for kind in ("sites", "reads", "blobs"):
+            for s in getattr(dp, kind):
+                if "'?'" in repr(s.get("pos")) or "not-a-view" in repr(s.get("pos")) or "unknown" in repr(s.get("len")):
+                    out.append("a buffer position at %s has no normal form (%s)" % (s.get("where"), repr(s.get("pos"))[:80]))
+    seen = []
+    for x in out:
+        if x not in seen:
+            seen.append(x)
+    return seen
+
+
 def check(prog, run):
     I = prog.I
     run.explanation = ("(1) every response / mode-page / sense table is specialised through decode_bits and compared bit for bit with "
@@ -138,6 +189,7 @@ def check(prog, run):
     run.trusted += ["spec/tables.py, spec/responses.py (hand transcriptions)"]
     run.assumptions += ["a well-formed response is at least as long as its fixed part (short buffers are C11's concern)",
                         "READ CD per-sector layout, T10 texts and the ATA Information VPD page are not decided"]
+    undecided_shapes = []
     check_tables(prog, run, {"response", "both", "sense"}, rule_prefix="table")
     ndec = 0
     for name, spec in refr.DECODERS.items():
@@ -197,6 +249,13 @@ def check(prog, run):
                 if r["len"] is not None:
                     reads.add(("read", simplify(canon_pos(r["pos"], order2)), r["len"]))
         missing, m = match(spec["facts"], facts, site_conds, reads, spec["allowed"])
+        if missing:
+            gaps = extraction_gaps(dps)
+            if gaps:
+                # the decoder walks its buffer in a way the fact extraction does not follow (its loops or positions came out
+                # without a normal form): what is "missing" may simply not have been seen.  Undecided, not a violation.
+                undecided_shapes.append("%s: %s" % (c, "; ".join(gaps[:3])))
+                continue
         miss_keys = set()
         for rf, why in missing:
             key = repr(rf)
@@ -304,6 +363,10 @@ def check(prog, run):
         run.unconstrained.append(name)
     run.count("decoders", ndec)
     run.floor("decoders with reference structure", ndec, 15)
+    if undecided_shapes and not any((run.pid, v["rule"], v["construct"]) not in run.known for v in run.violations):
+        raise AnalysisError("decoder-shape-not-understood", "; ".join(undecided_shapes[:2]))
+    for u in undecided_shapes:
+        run.notes.append("structure not decided: " + u)
 
 
 def first_position(v):
